@@ -10,7 +10,13 @@ import re
 TRACE_SET = ("openat,open,creat,write,writev,pwrite64,pwritev,pwritev2,lseek,ftruncate,truncate,close,close_range,"
              "rename,renameat,renameat2,unlink,unlinkat,mkdir,mkdirat,rmdir,link,linkat,symlink,symlinkat,"
              "fsync,fdatasync,dup,dup2,dup3,fcntl,sendfile,copy_file_range,fallocate,mmap,splice,"
-             "clone,clone3,fork,vfork")
+             "clone,clone3,fork,vfork,chdir,fchdir")
+# syscalls that take a path WITHOUT a directory descriptor: with a relative path (producer run with a bare output
+# name, cwd = work directory) the line mentions no tracked directory at all, so they are never skipped by the
+# needle filter of parse_log
+PLAIN_PATH_CALLS = frozenset(("rename", "unlink", "mkdir", "rmdir", "open", "creat", "link", "symlink", "truncate",
+                              "chdir", "fchdir"))
+CWD_RE = re.compile(r"AT_FDCWD<([^>]*)>")
 
 LINE_RE = re.compile(r"^(\d+)\s+(.*)$")
 CALL_RE = re.compile(r"^([a-z_0-9]+)\((.*)$", re.S)
@@ -124,11 +130,15 @@ def parse_log(text, needles=None):
     for raw in text.split("\n"):
         if needles is not None and not any(nd in raw for nd in needles):
             m = NAME_RE.match(raw)
-            if m:
+            if m and m.group(2) not in PLAIN_PATH_CALLS:
                 pid = int(m.group(1))
                 if pid not in pids:
                     pids.append(pid)
-                events.append({"pid": pid, "name": m.group(2), "skip": True, "unfinished": False, "injected": False})
+                ev = {"pid": pid, "name": m.group(2), "skip": True, "unfinished": False, "injected": False}
+                cm = CWD_RE.search(raw)
+                if cm:
+                    ev["cwd"] = cm.group(1)          # -y annotation: the current directory at that moment
+                events.append(ev)
                 continue
         if not raw.strip():
             continue
@@ -144,9 +154,21 @@ def parse_log(text, needles=None):
             continue
         if rest.startswith("---"):        # signal delivery
             continue
-        if rest.startswith("<...") or "<unfinished ...>" in rest:
+        if rest.startswith("<..."):
+            for e in reversed(events):           # the call this line completes
+                if e["pid"] == pid and e.get("open_call"):
+                    e["resumed"] = True
+                    break
             events.append({"pid": pid, "name": "?interleaved", "args": [], "ret": None, "err": None, "injected": False,
                            "unfinished": True, "raw": rest[:200]})
+            continue
+        if "<unfinished ...>" in rest:
+            # either completed later by a `<... resumed>` line (interleaving: unsupported), or - sendfile and other calls
+            # with in/out arguments - the call during which the process was killed (never executed)
+            cm = CALL_RE.match(rest)
+            events.append({"pid": pid, "name": cm.group(1) if cm else "?interleaved", "args": [], "ret": None, "err": None,
+                           "injected": False, "unfinished": True, "open_call": bool(cm), "resumed": False,
+                           "raw": rest[:200]})
             continue
         cm = CALL_RE.match(rest)
         if not cm:
@@ -173,8 +195,11 @@ class Abstraction:
     """Turns the events of the main pid into model ops.  `finals`: absolute paths published by the producer
     (ids 0..m-1); every other path below D gets the next free id on first sight."""
 
-    def __init__(self, D, finals):
+    def __init__(self, D, finals, roots=()):
         self.D = D.rstrip("/")
+        # tracked directories: the work directory and (when the orchestrator redirects $TMPDIR) the temp directory,
+        # possibly on another file system
+        self.roots = [self.D] + [r.rstrip("/") for r in roots if r]
         self.ids = {}
         for p in finals:
             self.ids[p] = len(self.ids)
@@ -186,7 +211,7 @@ class Abstraction:
         self.cwd = None
 
     def tracked(self, p):
-        return p is not None and (p == self.D or p.startswith(self.D + "/"))
+        return p is not None and any(p == r or p.startswith(r + "/") for r in self.roots)
 
     def pid_(self, p):
         if p not in self.ids:
@@ -221,9 +246,19 @@ class Abstraction:
                 continue
             counts[name] = counts.get(name, 0) + 1
             if ev.get("skip"):
+                if ev.get("cwd") is not None:
+                    try:
+                        self.cwd = cstr('"' + ev["cwd"] + '"').decode("utf8", "surrogateescape")
+                    except Exception:
+                        self.cwd = None
                 continue
             n_before = len(self.ops)
-            if ev["unfinished"] and name == "?interleaved":
+            if ev["unfinished"] and (name == "?interleaved" or ev.get("open_call")):
+                if ev.get("open_call") and not ev["resumed"] and not any(
+                        e2["pid"] == main_pid and not e2.get("skip") for e2 in events[idx + 1:]):
+                    # last line of the process, never completed: the syscall the SIGKILL aborted
+                    self.relevant.append((idx, name, counts[name]))
+                    continue
                 self.X("interleaved syscall lines")
                 continue
             self.one(ev)
@@ -236,12 +271,20 @@ class Abstraction:
     def one(self, ev):
         name, a, ret = ev["name"], ev["args"], ev["ret"]
         ok = "1" if (ret is not None and ret >= 0) else "0"
+        if name in ("chdir", "fchdir"):
+            # relative paths of rename()/unlink()/mkdir() are resolved against the current directory
+            if ok == "1":
+                try:
+                    self.cwd = self.resolve(None, a[0]) if name == "chdir" else annot(a[0])[1]
+                except ParseError:
+                    self.cwd = None              # unknown: a later relative path fails closed (ParseError)
+            return
+        if name in ("openat", "unlinkat", "mkdirat", "renameat", "renameat2") and a and a[0].startswith("AT_FDCWD<"):
+            self.cwd = annot(a[0])[1]
         if name in ("openat", "open", "creat"):
             if name == "openat":
                 p = self.resolve(a[0], a[1])
                 flags = a[2]
-                if self.cwd is None and a[0].startswith("AT_FDCWD<"):
-                    self.cwd = annot(a[0])[1]
             elif name == "open":
                 p, flags = self.resolve(None, a[0]), a[1]
             else:
@@ -249,7 +292,7 @@ class Abstraction:
             if not self.tracked(p):
                 return
             mode, fl = parse_flags(flags)
-            if "O_DIRECTORY" in fl or "O_PATH" in fl or p in self.dirs or p == self.D:
+            if "O_DIRECTORY" in fl or "O_PATH" in fl or p in self.dirs or p in self.roots:
                 ev["_relevant"] = False
                 return
             if "O_TMPFILE" in fl or (mode == "r" and "O_TRUNC" in fl):
@@ -349,7 +392,11 @@ class Abstraction:
             return
         # everything else in the traced set: unsupported as soon as it mentions a tracked path or descriptor
         txt = " ".join(a)
-        hit = self.D in txt
+        hit = any(r in txt for r in self.roots)
+        if name in ("link", "symlink", "truncate"):          # plain-path calls: relative to the current directory
+            for tok in a[:1 if name == "truncate" else 2]:
+                if tok.startswith('"') and self.tracked(self.resolve(None, tok)):
+                    hit = True
         for tok in a:
             m = re.match(r"^(\d+)(<|$)", tok)
             if m and int(m.group(1)) in self.fdtab and name not in ("execve",):
